@@ -59,35 +59,52 @@ Definition ident_ok (s : string) : bool :=
 Record ent_names := {
   en_entity : string;                             (* library region *)
   en_archname : string;                           (* name of the architecture body *)
+  en_fixed : list string;                         (* names declared by the fixed part of the text (the helper
+                                                     function); same region as [en_arch] *)
   en_arch : list string;                          (* ports, architecture declarative part (signals, constants,
-                                                     types, enumeration literals, the helper function) and the
-                                                     labels of the statement part: ONE declarative region *)
+                                                     types) and the labels of the statement part: the
+                                                     non-overloadable names of ONE declarative region *)
+  en_lits : list (list string);                   (* per enumeration type: its literals (overloadable: two types
+                                                     may share a literal, one type may not repeat one) *)
   en_procs : list (list string * list string);    (* per process: its variables; identifiers its text uses *)
-  en_relied : list string                         (* predefined identifiers the text uses in their predefined role *)
+  en_scoped : list (string * (N * N));            (* every declared identifier with the text lines (from, to] in
+                                                     which it is visible (declaration line, end of its region) *)
+  en_relied : list (string * N)                   (* predefined identifiers the text uses in their predefined
+                                                     role, with the line of each use *)
 }.
 
 Definition all_decls (n : ent_names) : list string :=
-  n.(en_entity) :: n.(en_archname) :: n.(en_arch) ++ flat_map fst n.(en_procs).
+  n.(en_entity) :: n.(en_archname) :: n.(en_arch) ++ concat n.(en_lits) ++ flat_map fst n.(en_procs).
 
 Definition idents_ok (n : ent_names) : bool := forallb ident_ok (all_decls n).
 
-(** one declaration per name in the architecture region; per process: its variables pairwise
-    distinct, and none of them hides an architecture-level name that the process text uses *)
+(** one declaration per name in the architecture region (an enumeration literal may be overloaded by
+    another enumeration literal only); per process: its variables pairwise distinct, and none of them
+    hides an architecture-level name that the process text uses *)
 Definition decl_unique (n : ent_names) : bool :=
-  let arch := map lower n.(en_arch) in
+  let arch := map lower (n.(en_fixed) ++ n.(en_arch)) in
+  let lits := map lower (concat n.(en_lits)) in
   nodupb arch
+  && forallb (fun l => nodupb (map lower l)) n.(en_lits)
+  && forallb (fun l => negb (smem l (map lower n.(en_arch)))) lits
   && forallb (fun p =>
        let vars := map lower (fst p) in
        let uses := map lower (snd p) in
-       nodupb vars && forallb (fun v => negb (smem v arch && smem v uses)) vars) n.(en_procs).
+       nodupb vars && forallb (fun v => negb (smem v (arch ++ lits) && smem v uses)) vars) n.(en_procs).
 
 Definition no_reserved (table : list string) (n : ent_names) : bool :=
   forallb (fun d => negb (smem (lower d) table)) (all_decls n).
 
-(** no declared identifier equals a predefined name that the same text relies on *)
+(** no declared identifier equals a predefined name that the same text relies on inside the scope of
+    that declaration (a name is not yet visible in its own declaration: [signal integer : integer;]
+    is legal as long as no later line means the type) *)
 Definition no_hiding (predef : list string) (n : ent_names) : bool :=
-  let relied := map lower n.(en_relied) in
-  forallb (fun d => negb (smem (lower d) predef && smem (lower d) relied)) (all_decls n).
+  forallb (fun d =>
+    let nm := lower (fst d) in
+    negb (smem nm predef
+          && existsb (fun r => String.eqb (lower (fst r)) nm
+                               && (fst (snd d) <? snd r)%N && (snd r <=? snd (snd d))%N) n.(en_relied)))
+    n.(en_scoped).
 
 Definition lib_unique (entities : list string) : bool := nodupb (map lower entities).
 
@@ -118,7 +135,7 @@ Definition pw2 (k : nat) : N := N.pow 2 (N.of_nat k).
 
 (** [cnt = 1; while base+str(cnt) taken: cnt *= 2] - the exponent reached.  The loop ends after at
     most [length used] doublings (the tested names are pairwise different), which is the
-    structural bound [fuel]; [C06_uniquify_terminates] shows the bound is never the reason to stop. *)
+    structural bound [fuel]; [uniquify_terminates] shows the bound is never the reason to stop. *)
 Fixpoint dbl (used : list string) (base : string) (k : nat) (fuel : nat) : nat :=
   match fuel with
   | O => k
@@ -269,7 +286,7 @@ Proof.
   rewrite map_length, seq_length in L. lia.
 Qed.
 
-Theorem C06_uniquify_terminates : forall used base, exists k,
+Theorem uniquify_terminates : forall used base, exists k,
   k <= length used /\ dbl used base 0 (S (length used)) = k /\
   taken used (base ++ str (pw2 k)) = false /\
   forall j, j < k -> taken used (base ++ str (pw2 j)) = true.
@@ -289,7 +306,7 @@ Qed.
 Theorem dbl_free : forall used base,
   taken used (base ++ str (pw2 (dbl used base 0 (S (length used))))) = false.
 Proof.
-  intros used base. destruct (C06_uniquify_terminates used base) as [k [_ [E [F _]]]].
+  intros used base. destruct (uniquify_terminates used base) as [k [_ [E [F _]]]].
   now rewrite E.
 Qed.
 
@@ -311,7 +328,7 @@ Qed.
 
 (** * uniquify *)
 
-Theorem C06_uniquify_distinct : forall used reqs,
+Theorem uniquify_distinct : forall used reqs,
   NoDup (map lower (uniquify used reqs)) /\
   forall n, In n (uniquify used reqs) -> ~ In (lower n) used.
 Proof.
@@ -328,22 +345,22 @@ Proof.
       intros Hu. apply (Hnot m Hm). now right.
 Qed.
 
-Theorem C06_uniquify_length : forall used reqs, length (uniquify used reqs) = length reqs.
+Theorem uniquify_length : forall used reqs, length (uniquify used reqs) = length reqs.
 Proof.
   intros used reqs. revert used. induction reqs; intros; simpl; [reflexivity | now rewrite IHreqs].
 Qed.
 
-Theorem C06_same_object_same_name : forall used reqs i j,
+Theorem same_object_same_name : forall used reqs i j,
   i < length reqs -> j < length reqs ->
   (lower (name_of used reqs i) = lower (name_of used reqs j) <-> i = j).
 Proof.
   intros used reqs i j Hi Hj. split; [| now intros ->].
   unfold name_of. intros E.
-  destruct (C06_uniquify_distinct used reqs) as [ND _].
+  destruct (uniquify_distinct used reqs) as [ND _].
   change EmptyString with (lower EmptyString) in E at 1.
   rewrite <- !(map_nth lower) in E. simpl in E.
   pose proof (proj1 (NoDup_nth (map lower (uniquify used reqs)) EmptyString) ND) as Hinj.
-  apply Hinj; [| | assumption]; now rewrite map_length, C06_uniquify_length.
+  apply Hinj; [| | assumption]; now rewrite map_length, uniquify_length.
 Qed.
 
 Lemma uniquify_used_In : forall reqs used x,
@@ -363,13 +380,13 @@ Proof.
   - apply IH. intros x Hx. apply H. now right.
 Qed.
 
-Theorem C06_uniquify_child_distinct : forall used parent child,
+Theorem uniquify_child_distinct : forall used parent child,
   let (p, c) := uniquify_child used parent child in
   NoDup (map lower (p ++ c)) /\ forall n, In n (p ++ c) -> ~ In (lower n) used.
 Proof.
   intros used parent child. unfold uniquify_child.
-  destruct (C06_uniquify_distinct used parent) as [NDp Hp].
-  destruct (C06_uniquify_distinct (uniquify_used used parent) child) as [NDc Hc].
+  destruct (uniquify_distinct used parent) as [NDp Hp].
+  destruct (uniquify_distinct (uniquify_used used parent) child) as [NDc Hc].
   split.
   - rewrite map_app. apply NoDup_app_intro; try assumption.
     intros x Hx Hx2. apply in_map_iff in Hx2. destruct Hx2 as [m [<- Hm]].
